@@ -115,6 +115,7 @@ func runC10(tier string, seed uint64) {
 				s.Put(b, "a", []byte{}, nil) // zero bytes: an object all the same, also when a key below it is addressed
 				s.Put(b, "n", []byte("N-"+b), nil)
 			}
+			stored := map[string][]string{}
 			before := c10Snapshot(s, probe)
 			for j := 0; j < length; j++ {
 				b := buckets[rng.Intn(len(buckets))]
@@ -126,12 +127,15 @@ func runC10(tier string, seed uint64) {
 				addressed := []string{"o|" + b + "|" + ek + "\x00", "l|" + b + "|" + ek + "\x00", "f|" + b + "|"}
 				var r Resp
 				switch w := rng.Intn(100); {
-				case w < 45:
+				case w < 40:
 					var m []KV
 					if rng.Intn(3) > 0 {
 						m = []KV{{"X-Amz-Meta-Op", fmt.Sprintf("%d-%d", i, j)}}
 						if rng.Bool() {
 							m = append(m, KV{"Content-Type", fmt.Sprintf("text/x-%d", j)})
+						}
+						if rng.Intn(3) == 0 {
+							m = append(m, KV{"X-Amz-Acl", []string{"public-read", "private"}[rng.Intn(2)]}) // stored and returned like any x-amz header, but never copied
 						}
 					}
 					body := []byte(fmt.Sprintf("body-%d-%d", i, j))
@@ -139,14 +143,22 @@ func runC10(tier string, seed uint64) {
 						body = []byte{} // a zero-byte object is an object, not an empty directory
 					}
 					r = s.Put(b, k, body, m)
-				case w < 65:
+					if r.Status == 200 {
+						stored[b] = append(stored[b], k)
+					}
+				case w < 55:
 					r = s.Delete(b, k)
-				case w < 75:
+				case w < 63:
 					r = s.Get(b, k, "")
 					addressed = nil
 				case w < 82:
+					// copy: mostly from a key that holds an object (with whatever headers it was uploaded with)
 					sb := buckets[rng.Intn(len(buckets))]
-					r = s.Copy(sb, c10Keys[rng.Intn(len(c10Keys))], b, k)
+					sk := c10Keys[rng.Intn(len(c10Keys))]
+					if len(stored[sb]) > 0 && rng.Intn(4) > 0 {
+						sk = stored[sb][rng.Intn(len(stored[sb]))]
+					}
+					r = s.Copy(sb, sk, b, k)
 				case w < 88:
 					r = s.MultiDelete(b, []KV{{K: k}})
 				case w < 92:
